@@ -112,6 +112,21 @@ pub fn replay(path: &str, out: &str) -> Value {
             }
         }
     }
+    // data larger than 64 KiB into writers that take a prefix only (a size limit applied to the data must not turn one short
+    // write into several)
+    for (fg, bg, take) in [(1u64, 16u64, 1000usize), (16, 4, 65536), (9, 2, 70000)] {
+        let data: Vec<u8> = (0..66000usize).map(|i| b'a' + (i % 26) as u8).collect();
+        let log = Rc::new(RefCell::new(Log { script: VecDeque::new(), writes: vec![], data: data.clone(), pre: take.min(data.len()) }));
+        let mut b: Box<dyn Write> = Box::new(W(log.clone()));
+        let res = b.write_colored(col(fg), col(bg), &data);
+        let inner: Vec<Value> = log.borrow().writes.iter().map(|(b, t, k)| json!([b, t, k])).collect();
+        let ret = match &res {
+            Ok(n) => json!(["ok", n]),
+            Err(e) => json!([kind_of(e), 0]),
+        };
+        writeln!(w, "{}", json!({"fg":fg,"bg":bg,"data":data,"inner":inner,"ret":ret,"impl":"dyn (64 KiB + data)","whole":false})).unwrap();
+        events += 1;
+    }
     let _ = std::fs::remove_file(&tmp);
     w.flush().unwrap();
     json!({"summary":{"scripts":scripts,"events":events}})
